@@ -155,6 +155,25 @@ type c20ErrHolder struct{ Name string }
 func (h c20ErrHolder) Err() error   { return fmt.Errorf("disk full on %s", h.Name) }
 func (h *c20ErrHolder) PErr() error { return fmt.Errorf("pointer disk full on %s", h.Name) }
 
+// a field promoted from an embedded struct whose type is a pointer to a struct that prints itself (pointer receiver): the
+// attribute's value is that pointer
+type c20Target struct{ Host string }
+
+func (t *c20Target) String() string { return "url:" + t.Host }
+
+type c20Links struct {
+	Link *c20Target
+	Note string
+}
+type c20Page struct {
+	c20Links
+	Title string
+}
+type c20PPage struct {
+	*c20Links
+	Title string
+}
+
 type c20M1Ptr *M1
 type c20Emb1Ptr *Emb1
 
@@ -183,6 +202,10 @@ func c20Family() []c20Item {
 		{"Shadow", sh, sNames, "struct"}, {"PEmb", pe, sNames, "struct"}, {"*PEmb", &pe, sNames, "struct"}, {"PEmbNil", pn, sNames, "struct"}, {"*PEmbNil", &pn, sNames, "struct"},
 		{"M1", m1, sNames, "struct"}, {"*M1", &m1, sNames, "struct"}, {"M2", m2, sNames, "struct"}, {"*M2", &m2, sNames, "struct"}, {"EmbM", em, sNames, "struct"}, {"*EmbM", &em, sNames, "struct"},
 		{"ErrHolder", c20ErrHolder{Name: "eh"}, []string{"Name", "Err", "Missing"}, "struct"}, {"*ErrHolder", &c20ErrHolder{Name: "peh"}, []string{"Name", "Err", "PErr"}, "struct"},
+		{"PageWithPromotedPtr", c20Page{c20Links{&c20Target{"a.example"}, "n1"}, "t1"}, []string{"Link", "Note", "Title", "Missing"}, "struct"},
+		{"*PageWithPromotedPtr", &c20Page{c20Links{&c20Target{"b.example"}, "n2"}, "t2"}, []string{"Link", "Note", "Title"}, "struct"},
+		{"PageViaEmbeddedPtr", c20PPage{&c20Links{&c20Target{"c.example"}, "n3"}, "t3"}, []string{"Link", "Note", "Title"}, "struct"},
+		{"PageNilLink", c20Page{c20Links{nil, "n4"}, "t4"}, []string{"Note", "Title"}, "struct"},
 		{"nil*A1", nilA1, []string{"Name", "Count"}, "struct"}, {"named-ptr-M1", c20M1Ptr(&m1), sNames, "struct"}, {"named-ptr-Emb1", c20Emb1Ptr(&e1), sNames, "struct"},
 		{"map-iface", map[string]interface{}{"Name": "mi.Name", "k": "mi.k", "Count": 2101, "a b": "mi.ab"}, []string{"Name", "k", "Count", "Missing", "a b"}, "map"},
 		{"map-string", map[string]string{"Name": "ms.Name", "k": "ms.k"}, []string{"Name", "k", "Missing"}, "map"},
